@@ -991,7 +991,7 @@ func c19RunValues(c *lib.Ctx, cases []c19ValCase, allMargins bool) {
 				obs = &c19Obs{Aspect: "form-shape", Form: formText, Observed: formText, Expected: "the model's load form (model_form)"}
 			}
 		}
-		if i%(len(cases)/6+1) == 0 {
+		if i%(len(cases)/4+1) == 0 {
 			c.Ev.Sample(map[string]string{"leg": "value", "value": c19Show(c19SafeObject(cs.Val)), "load_form": formText})
 		}
 		if obs != nil {
